@@ -219,6 +219,22 @@ def judge_twin(builder, tree, plan, header, extra_toolchain=True):
                     detail["diff"] = _first_diff(r0["stdout"], o["stdout"])
                 return "TOOLCHAIN_DEPENDENT", detail
         return verdict, detail
+    if verdict == "BOTH_REJECT" and extra_toolchain and not plan["toolchain"].get("b") and not plan["toolchain"].get("matrix"):
+        # Both packagings reject under this configuration.  Before calling that inconclusive, ask
+        # the other configurations: if one of them accepts the very same program, acceptance
+        # depends on the toolchain, which C20 forbids.
+        other = [c for c in sorted(COMPILERS) if c != tca[0]]
+        alts = [(c, tca[1]) for c in other] + [(tca[0], st) for st in STDS if st != tca[1]]
+        for tc in alts:
+            o = builder.build("multi", None, m_src, tc)
+            if o.get("harness_error"):
+                return "HARNESS", detail
+            if o["ok"]:
+                detail["toolchain_b"] = toolchain_id(tc)
+                detail["b_variant"] = "multi"
+                detail["b"] = _brief(o)
+                detail["a_ref"] = _brief(m)
+                return "TOOLCHAIN_DEPENDENT", detail
     tcb = plan["toolchain"].get("b")
     if extra_toolchain and tcb and tuple(tcb) != tca:
         tcb = tuple(tcb)
